@@ -14,13 +14,54 @@ MODEL_MODULES = ["PyrollModel.TreeDriver"]      # what that driver imports (buil
 RULE = ("random edit histories over a pool of real units (plain Unit, TwoRollPass, Transport, nested PassSequence); "
         "a case is one history; non-trivial = contains at least one list mutation besides construction; "
         "distinct by the canonical op list. 80% of the histories only insert units that are unlisted at that moment "
-        "(fresh stream), the rest may insert units that are still listed elsewhere (F10 stream).")
+        "or that lie in the range which the same item/slice assignment replaces (valid stream: in-place reversal, "
+        "rotation, permutation, l[i] = l[i], extended slices l[i:j:k] = ... with matching sizes), the rest may insert "
+        "units that are still listed elsewhere (F10 stream). After every op: parent/children/prev/next of every unit "
+        "and prev_of/next_of for every unit and type are compared with the model and checked by the oracle.")
 ASSUMPTIONS = [
     "CPython list primitive methods, weakref and copy.deepcopy memo semantics are modelled, not verified",
     "the model is tied to the code by sampled differential runs (state compared after every op)",
 ]
 
 KINDS = {0: "Unit", 1: "TwoRollPass", 2: "Transport", 3: "PassSequence"}
+OVERLAP_P = 0.4       # share of item/slice assignments that deliberately re-insert units of the replaced range
+
+
+class _Budget(Exception):
+    """harness side: prev_of / next_of did not come back within the allowed number of isinstance checks"""
+
+
+def _probe(t, limit):
+    """a type that answers isinstance() exactly like `t` but gives up after `limit` checks, so that a
+    non-terminating type search (possible when sibling parents are inconsistent) cannot hang the harness"""
+    class _Meta(type):
+        n = 0
+
+        def __instancecheck__(cls, x):
+            _Meta.n += 1
+            if _Meta.n > limit:
+                raise _Budget()
+            return isinstance(x, t)
+    return _Meta("Probe_" + t.__name__, (), {})
+
+
+def nav_of(u, direction, t, limit=64):
+    """outcome of u.prev_of(t) / u.next_of(t): the unit, or the exception class name, or 'Loop';
+    called first with a counting stand-in for `t`, then (when that came back) with `t` itself"""
+    f = getattr(u, direction)
+    try:
+        r1 = f(_probe(t, limit))
+    except _Budget:
+        return "Loop"
+    except Exception as e:          # raised from inside pyroll
+        r1 = type(e).__name__
+    try:
+        r2 = f(t)
+    except Exception as e:
+        r2 = type(e).__name__
+    if r1 is not r2 and r1 != r2:
+        return ("Differs", r1, r2)
+    return r2
 
 
 def _imports():
@@ -103,6 +144,10 @@ class Real:
                 self.lst(op[1])[op[2]] = self.units[op[3]]
             elif name == "setslice":
                 self.lst(op[1])[op[2]:op[3]] = [self.units[i] for i in op[4]]
+            elif name == "setsliceext":
+                self.lst(op[1])[op[2]:op[3]:op[4]] = [self.units[i] for i in op[5]]
+            elif name == "delsliceext":
+                del self.lst(op[1])[op[2]:op[3]:op[4]]
             elif name == "delitem":
                 del self.lst(op[1])[op[2]]
             elif name == "delslice":
@@ -160,8 +205,35 @@ class Real:
                 res.append(type(e).__name__)
         return " ".join(res)
 
+    def navof(self, u, q):
+        """prev_of / next_of with the type standing for the model's query `q` (0 Unit, 1 roll pass, 2 transport,
+        3 pass sequence), in the model's vocabulary"""
+        Unit, PassSequence, TwoRollPass, Transport = self.cls
+        t = (Unit, TwoRollPass, Transport, PassSequence)[q]
+        res = []
+        for d in ("prev_of", "next_of"):
+            r = nav_of(self.units[u], d, t)
+            res.append(r if isinstance(r, str) else "Differs" if isinstance(r, tuple) else f"u{self.uid(r)}")
+        return " ".join(res)
+
+    def query_types(self, u):
+        """the types navigation by type is checked with: the base types named by the property and the unit's own
+        type with all its base types below Unit"""
+        from pyroll.core import RollPass
+        Unit, PassSequence, BaseRollPass, Transport = self.cls
+        ts = [Unit, BaseRollPass, RollPass, Transport, PassSequence]
+        for c in type(u).__mro__:
+            if isinstance(c, type) and issubclass(c, Unit) and c not in ts:
+                ts.append(c)
+        return ts
+
+    def name(self, r):
+        if isinstance(r, tuple):       # ("Differs", with the counting stand-in, with the type itself)
+            return "/".join(self.name(x) for x in r)
+        return r if isinstance(r, str) else f"u{self.uid(r)}"
+
     # ---- independent oracle: the property as stated ----------------------------------------
-    def oracle(self):
+    def oracle(self, navof=True):
         """returns list of textual problems"""
         Unit, PassSequence, TwoRollPass, Transport = self.cls
         probs = []
@@ -219,8 +291,28 @@ class Real:
                     probs.append(f"seq u{sid}.transports is not the order-preserving sub-list")
             except Exception as e:
                 probs.append(f"seq u{sid}: lookup raised {type(e).__name__}: {e}")
+            # navigation by type agrees with the list order: prev_of(t) is the nearest EARLIER listed unit that is
+            # an instance of t, next_of(t) the nearest LATER one, IndexError when there is none.  Checked when the
+            # parents and prev/next of this list are consistent (otherwise that is the problem to report).
+            if navof and not probs and len(set(map(id, lst))) == len(lst):
+                for k, u in enumerate(lst):
+                    for t in self.query_types(u):
+                        want_p = next((x for x in reversed(lst[:k]) if isinstance(x, t)), "IndexError")
+                        want_n = next((x for x in lst[k + 1:] if isinstance(x, t)), "IndexError")
+                        for d, want in (("prev_of", want_p), ("next_of", want_n)):
+                            got = nav_of(u, d, t)
+                            if got is not want and not (isinstance(want, str) and got == want):
+                                probs.append(f"{d}: u{self.uid(u)}.{d}({t.__name__}) gives {self.name(got)}, "
+                                             f"the list order of seq u{sid} says {self.name(want)}")
         for u in self.units:
             p = u.parent
+            if navof and p is None and not probs:
+                # documented: ValueError when the unit has no parent
+                for d in ("prev_of", "next_of"):
+                    got = nav_of(u, d, Unit)
+                    if got != "ValueError":
+                        probs.append(f"{d}: u{self.uid(u)}.{d}(Unit) gives {self.name(got)} although the unit "
+                                     f"has no parent (ValueError expected)")
             if p is not None:
                 if self.uid(p) < 0:
                     probs.append(f"u{self.uid(u)} names an unknown parent")
@@ -248,6 +340,10 @@ def to_line(op):
         return f"{n} {op[1]} {L(op[2])}"
     if n == "setslice":
         return f"setslice {op[1]} {O(op[2])} {O(op[3])} {L(op[4])}"
+    if n == "setsliceext":
+        return f"setsliceext {op[1]} {O(op[2])} {O(op[3])} {op[4]} {L(op[5])}"
+    if n == "delsliceext":
+        return f"delsliceext {op[1]} {O(op[2])} {O(op[3])} {op[4]}"
     if n in ("delitem", "drop"):
         return f"{n} {op[1]} {op[2]}"
     if n == "pop":
@@ -352,7 +448,32 @@ def gen_history(rng, n_ops, fresh_only):
             oidx = lambda: None if rng.random() < 0.3 else rng.randrange(-n - 2, n + 3)
             name = rng.choice(["append", "prepend", "insert", "extend", "iadd", "setitem", "setslice", "delitem",
                                "delslice", "pop", "remove", "clear", "drop", "flatten", "listcopy", "deepcopy",
-                               "append", "insert", "setitem", "pop", "remove", "delitem"])
+                               "append", "insert", "setitem", "pop", "remove", "delitem",
+                               "setslice", "setsliceext", "setsliceext", "delsliceext"])
+            cur_ids = lambda sl: [real.uid(x) for x in real.lst(s)[sl]]
+
+            def reinsert(cur, same_len):
+                """units of the replaced range in another order (reversal, rotation, permutation, sub-selection),
+                possibly mixed with / partly replaced by unlisted units"""
+                us = list(cur)
+                mode = rng.randrange(4)
+                if mode == 0:
+                    us.reverse()
+                elif mode == 1 and us:
+                    r = rng.randrange(len(us))
+                    us = us[r:] + us[:r]
+                else:
+                    rng.shuffle(us)
+                if same_len:
+                    where = [t for t in range(len(us)) if rng.random() < 0.25]
+                    for t, e in zip(where, pick_units(s, len(where))):
+                        us[t] = e
+                else:
+                    if mode == 3 and us:
+                        us = us[:rng.randrange(1, len(us) + 1)]
+                    for e in pick_units(s, rng.choice([0, 0, 1, 2])):
+                        us.insert(rng.randrange(len(us) + 1), e)
+                return us
             if name in ("append", "prepend"):
                 op = (name, s, pick_units(s, 1)[0])
             elif name == "insert":
@@ -360,9 +481,38 @@ def gen_history(rng, n_ops, fresh_only):
             elif name in ("extend", "iadd"):
                 op = (name, s, pick_units(s, rng.randrange(0, 4)))
             elif name == "setitem":
-                op = (name, s, idx(), pick_units(s, 1)[0])
+                i = idx()
+                if n and -n <= i < n and rng.random() < OVERLAP_P / 2:
+                    op = (name, s, i, real.uid(real.lst(s)[i]))      # l[i] = l[i]
+                else:
+                    op = (name, s, i, pick_units(s, 1)[0])
             elif name == "setslice":
-                op = (name, s, oidx(), oidx(), pick_units(s, rng.randrange(0, 4)))
+                i, j = (None, None) if rng.random() < 0.25 else (oidx(), oidx())
+                cur = cur_ids(slice(i, j))
+                if cur and rng.random() < OVERLAP_P:
+                    op = (name, s, i, j, reinsert(cur, False))
+                else:
+                    op = (name, s, i, j, pick_units(s, rng.randrange(0, 4)))
+            elif name == "setsliceext":
+                # l[i:j:k] = us.  k = 0 raises before anything happens; k = 1 is the plain slice; otherwise the sizes
+                # must agree - a size MISMATCH is deliberately not generated: the unchanged code orphans the addressed
+                # units and then raises ValueError (finding "ext-slice-size-mismatch", notes/C13.md; theorem C13_ext_size_counterexample)
+                k = 0 if rng.random() < 0.03 else rng.choice([-3, -2, -1, -1, 2, 2, 3, 1])
+                i, j = (None, None) if rng.random() < 0.4 else (oidx(), oidx())
+                if k == 0:
+                    op = (name, s, i, j, k, pick_units(s, rng.randrange(0, 3)))
+                else:
+                    cur = cur_ids(slice(i, j, k))
+                    if cur and rng.random() < 1.5 * OVERLAP_P:
+                        us = reinsert(cur, k != 1)
+                    else:
+                        us = pick_units(s, len(cur) if k != 1 else rng.randrange(0, 4))
+                    if k != 1 and len(us) != len(cur):
+                        continue
+                    op = (name, s, i, j, k, us)
+            elif name == "delsliceext":
+                k = 0 if rng.random() < 0.03 else rng.choice([-3, -2, -1, 2, 2, 3, 1])
+                op = (name, s, oidx(), oidx(), k)
             elif name in ("delitem", "drop"):
                 op = (name, s, idx())
             elif name == "delslice":
@@ -399,36 +549,78 @@ def gen_history(rng, n_ops, fresh_only):
     return ops, nonfresh
 
 
-def classify(ops, upto, nonfresh_hist):
-    return "adopt-unit-still-listed-elsewhere" if nonfresh_hist else "inv-after-" + ops[upto][0]
+def inserted_replaced(real, op):
+    """(uids the op inserts, uids it takes out of the edited list before storing them), evaluated in the state
+    BEFORE the op; ([], []) when the op fails before it touches anything"""
+    n = op[0]
+    if n == "seq":
+        return list(op[2]), []
+    if n in ("append", "prepend"):
+        return [op[2]], []
+    if n == "insert":
+        return [op[3]], []
+    if n in ("extend", "iadd"):
+        return list(op[2]), []
+    if n in ("setitem", "setslice", "setsliceext"):
+        lst = real.lst(op[1])
+        if n == "setitem":
+            if not -len(lst) <= op[2] < len(lst):
+                return [], []                       # IndexError before anything happens
+            return [op[3]], [real.uid(lst[op[2]])]
+        if n == "setslice":
+            return list(op[4]), [real.uid(x) for x in lst[op[2]:op[3]]]
+        if op[4] == 0:
+            return [], []                           # ValueError before anything happens
+        return list(op[5]), [real.uid(x) for x in lst[op[2]:op[3]:op[4]]]
+    return [], []
+
+
+def op_nonfresh(real, op):
+    """F10 situation: does `op` insert a unit that stays listed in ANOTHER place (or is inserted twice)?
+    A unit that is listed exactly once, inside the range which this very item/slice assignment replaces, is
+    legitimately re-inserted (afterwards it is listed once) and does not count."""
+    ins, repl = inserted_replaced(real, op)
+    if len(set(ins)) != len(ins):
+        return True
+    for u in ins:
+        if u >= len(real.units):
+            continue
+        obj = real.units[u]
+        occ = [real.uid(q) for q in real.units if real.kind_of(q) == 3 for x in q._subunits if x is obj]
+        if not occ:
+            if obj.parent is not None:
+                return True                         # stale parent (only downstream of an earlier problem)
+            continue
+        if len(occ) == 1 and occ[0] == op[1] and u in repl and op[0] in ("setitem", "setslice", "setsliceext"):
+            continue
+        return True
+    return False
+
+
+def op_overlaps(real, op):
+    ins, repl = inserted_replaced(real, op)
+    return bool(set(ins) & set(repl))
 
 
 def history_nonfresh(ops, upto):
-    """does the prefix ops[:upto+1] insert a unit that is listed somewhere at that moment (or twice)?"""
+    """does the prefix ops[:upto+1] contain an F10 insertion (see op_nonfresh)?"""
     real = Real()
     for op in ops[:upto + 1]:
-        ins = []
-        if op[0] == "seq":
-            ins = op[2]
-        elif op[0] in ("append", "prepend"):
-            ins = [op[2]]
-        elif op[0] in ("insert", "setitem"):
-            ins = [op[3]]
-        elif op[0] in ("extend", "iadd"):
-            ins = op[2]
-        elif op[0] == "setslice":
-            ins = op[4]
-        if len(set(ins)) != len(ins):
+        if op_nonfresh(real, op):
             return True
-        for u in ins:
-            if u >= len(real.units):
-                continue
-            obj = real.units[u]
-            if obj.parent is not None or any(real.kind_of(s) == 3 and any(x is obj for x in s._subunits)
-                                             for s in real.units):
-                return True
         real.apply(op)
     return False
+
+
+def violation_key(small, probs):
+    """stable key of a violation in a history without F10 insertions: what kind of check failed after which op"""
+    real = Real()
+    for op in small[:-1]:
+        real.apply(op)
+    last = small[-1]
+    if probs and probs[0].split(":")[0] in ("prev_of", "next_of"):
+        return "navof-after-" + last[0]
+    return "inv-after-" + last[0] + ("-overlap" if op_overlaps(real, last) else "")
 
 
 def first_problem(ops):
@@ -472,8 +664,24 @@ CORPUS = [
     [("unit", 0, 0), ("unit", 0, 1), ("seq", 0, [0, 1]), ("pop", 2, -1, True)],
     [("unit", 0, 0), ("unit", 0, 1), ("unit", 0, 2), ("seq", 0, [0, 1]), ("setslice", 3, 0, 1, [2])],
     [("unit", 1, 0), ("unit", 2, 1), ("seq", 0, [0, 1]), ("seq", 1, [2]), ("deepcopy", 2), ("deepcopy", 3)],
+    # re-insertion of units of the replaced range (valid): reversal by slice assignment, partial overlap,
+    # extended-slice rotation, l[i] = l[i], negative step
+    [("unit", 2, 0), ("unit", 2, 1), ("unit", 2, 2), ("unit", 2, 3), ("seq", 0, [0, 1, 2, 3]),
+     ("setslice", 4, None, None, [3, 2, 1, 0])],
+    [("unit", 2, 0), ("unit", 2, 1), ("unit", 2, 2), ("unit", 2, 3), ("unit", 2, 0), ("seq", 0, [0, 1, 2, 3]),
+     ("setslice", 5, 1, 3, [2, 4])],
+    [("unit", 2, 0), ("unit", 2, 1), ("unit", 2, 2), ("unit", 2, 3), ("seq", 0, [0, 1, 2, 3]),
+     ("setsliceext", 4, None, None, 2, [2, 0])],
+    [("unit", 1, 0), ("unit", 2, 1), ("seq", 0, [0, 1]), ("setitem", 2, 1, 1), ("setitem", 2, -2, 0)],
+    [("unit", 1, 0), ("unit", 2, 1), ("unit", 0, 2), ("seq", 0, [0, 1, 2]), ("setsliceext", 3, None, None, -1, [0, 1, 2]),
+     ("delsliceext", 3, None, None, -2)],
+    # navigation by type: own type, base type, foreign type, first/last, nested sequence
+    [("unit", 1, 0), ("unit", 2, 1), ("unit", 0, 2), ("unit", 1, 3), ("unit", 2, 0), ("seq", 1, [2, 3]),
+     ("seq", 0, [0, 1, 5, 4]), ("prepend", 6, 2)],
     # F10 (known finding): a unit adopted while it is still listed elsewhere
     [("unit", 0, 0), ("seq", 0, [0]), ("seq", 1, [0])],
+    # F10: l[0], l[1] = l[1], l[0] - the first item assignment lists u1 twice, the second one orphans it
+    [("unit", 0, 0), ("unit", 0, 1), ("seq", 0, [0, 1]), ("setitem", 2, 0, 1), ("setitem", 2, 1, 0)],
 ]
 
 
@@ -485,12 +693,19 @@ def run_history(ctx, ops, lean_lines, meta):
         st = real.apply(op)
         d = real.dump()
         navs = [real.nav(u) for u in range(len(real.units))]
-        obs.append((st, d, navs))
         lean_lines.append(to_line(op))
         lean_lines.append("obs")
         for u in range(len(real.units)):
             lean_lines.append(f"nav {u}")
         probs = real.oracle()
+        if not probs:
+            # navigation by type, compared with the model in consistent states only (with inconsistent sibling
+            # parents the real type search may not terminate at all)
+            for u in range(len(real.units)):
+                for q in range(4):
+                    navs.append(real.navof(u, q))
+                    lean_lines.append(f"navof {u} {q}")
+        obs.append((st, d, navs))
         if st not in ("ok", "IndexError", "ValueError") and not st.startswith("u"):
             probs = [f"operation {op[0]} raised/returned {st}"] + probs
         if probs and "violation" not in meta:
@@ -534,7 +749,7 @@ def run(ctx):
                 small = shrink(ops, i)
                 j, probs2 = first_problem(small)
                 probs = probs2 or probs
-                key = "inv-after-" + small[-1][0]
+                key = violation_key(small, probs)
             ctx.violation(key, probs[0], {"ops": [to_line(o) for o in small], "problems": probs[:5],
                                           "how": "driver/props/c13.py replay: apply the op lines to real objects "
                                                  "(Real.apply) and run Real.oracle()"})
@@ -600,4 +815,8 @@ def parse_line(line):
         return (n, int(t[1]), int(t[2]), False)
     if n == "delslice":
         return (n, int(t[1]), O(t[2]), O(t[3]))
+    if n == "setsliceext":
+        return (n, int(t[1]), O(t[2]), O(t[3]), int(t[4]), L(t[5]))
+    if n == "delsliceext":
+        return (n, int(t[1]), O(t[2]), O(t[3]), int(t[4]))
     return (n, int(t[1]))
